@@ -1,6 +1,7 @@
 import Ivg.Lemmas.Fit32
 /-!
-# C12 at `F32`, continued: placement `minX := (d − s)·a; maxX := minX + s`
+# C12 at `F32`, continued: placement `minX := (d − s)·a; maxX := minX + s` (meet),
+`minX := (d − s)·a; maxX := d − (d − s)·(1 − a)` (slice)
 -/
 namespace Ivg.Fit32
 open Ivg Num FloatOrder32 FloatMono32 FloatErr
@@ -23,9 +24,8 @@ theorem abs_unit_mul {a z b : ℚ} (ha0 : 0 ≤ a) (ha1 : a ≤ 1) (h : |z| ≤ 
   exact le_trans (mul_le_of_le_one_left (abs_nonneg z) ha1) h
 
 /-- sign preservation and the size of `t = fl(D − s)` -/
-theorem PlaceQ.t_facts {D s a t m x : ℚ} (h : PlaceQ D s a t m x) (hD : 0 < D) (hs : 0 < s) :
+theorem t_facts' {D s t : ℚ} (ht : |t - (D - s)| ≤ u * |D - s|) (hD : 0 < D) (hs : 0 < s) :
     |t - (D - s)| ≤ u * (D + s) ∧ |t| ≤ (1 + u) * (D + s) ∧ (0 ≤ D - s → 0 ≤ t) ∧ (D - s ≤ 0 → t ≤ 0) := by
-  have ht := h.ht
   unfold u at *
   rcases le_total 0 (D - s) with hc | hc
   · rw [abs_of_nonneg hc] at ht
@@ -37,16 +37,21 @@ theorem PlaceQ.t_facts {D s a t m x : ℚ} (h : PlaceQ D s a t m x) (hD : 0 < D)
     refine ⟨abs_le.2 ⟨by linarith, by linarith⟩, abs_le.2 ⟨by linarith, by linarith⟩,
       fun h' => by linarith, fun _ => by linarith⟩
 
+theorem PlaceQ.t_facts {D s a t m x : ℚ} (h : PlaceQ D s a t m x) (hD : 0 < D) (hs : 0 < s) :
+    |t - (D - s)| ≤ u * (D + s) ∧ |t| ≤ (1 + u) * (D + s) ∧ (0 ≤ D - s → 0 ≤ t) ∧ (D - s ≤ 0 → t ≤ 0) :=
+  t_facts' h.ht hD hs
+
 /-- the two roundings of `minX` against the exact product `a·(D − s)` -/
-theorem PlaceQ.min_err {D s a t m x : ℚ} (h : PlaceQ D s a t m x) (hD : 0 < D) (hs : 0 < s)
+theorem min_err' {D s a t m : ℚ} (ht : |t - (D - s)| ≤ u * |D - s|)
+    (hmm : |m - t * a| ≤ u * |t| ∨ |m - t * a| ≤ u * minN) (hD : 0 < D) (hs : 0 < s)
     (ha0 : 0 ≤ a) (ha1 : a ≤ 1) (hN : minN ≤ D) :
     |m - a * (D - s)| ≤ (2 * u + u * u) * (D + s) := by
-  obtain ⟨t1, t2, _, _⟩ := h.t_facts hD hs
+  obtain ⟨t1, t2, _, _⟩ := t_facts' ht hD hs
   have haz := abs_unit_mul ha0 ha1 t1
   have e : t * a = a * (D - s) + a * (t - (D - s)) := by ring
   have hm : |m - (a * (D - s) + a * (t - (D - s)))| ≤ u * (1 + u) * (D + s) := by
     rw [← e]
-    rcases h.hm with h1 | h1
+    rcases hmm with h1 | h1
     · refine le_trans h1 ?_
       rw [mul_assoc]; exact mul_le_mul_of_nonneg_left t2 u_pos.le
     · refine le_trans h1 ?_
@@ -56,6 +61,10 @@ theorem PlaceQ.min_err {D s a t m x : ℚ} (h : PlaceQ D s a t m x) (hD : 0 < D)
   obtain ⟨b1, b2⟩ := abs_le.1 hm
   unfold u at *
   exact abs_le.2 ⟨by linarith, by linarith⟩
+
+theorem PlaceQ.min_err {D s a t m x : ℚ} (h : PlaceQ D s a t m x) (hD : 0 < D) (hs : 0 < s)
+    (ha0 : 0 ≤ a) (ha1 : a ≤ 1) (hN : minN ≤ D) :
+    |m - a * (D - s)| ≤ (2 * u + u * u) * (D + s) := min_err' h.ht h.hm hD hs ha0 ha1 hN
 
 /-- `minX + s` lies between `s` and `t + s ≈ D` -/
 theorem PlaceQ.sum_facts {D s a t m x : ℚ} (h : PlaceQ D s a t m x) (hD : 0 < D) (hs : 0 < s) :
@@ -119,33 +128,6 @@ theorem PlaceQ.inside {D s a t m x S : ℚ} (h : PlaceQ D s a t m x) (hD : 0 < D
   rw [abs_of_nonneg hms.1] at hx
   obtain ⟨c1, c2⟩ := abs_le.1 hx
   exact ⟨hms.2.2, by linarith⟩
-
-/-- **covering, slice** (clause d, second part): if the exact side covers (`D ≤ S`), the computed minimum is at
-    most `4u·D` and the computed maximum at least `D − 6u·(D + S)` — an error relative to the FITTED side,
-    which for `S ≫ D` is not small relative to the target (see `slice_far_right`) -/
-theorem PlaceQ.covers {D s a t m x S : ℚ} (h : PlaceQ D s a t m x) (hD : 0 < D) (hs : 0 < s)
-    (hS : 0 < S) (hsS : |s - S| ≤ 3 * u * S) (hcov : D ≤ S) :
-    m ≤ 4 * u * D ∧ D - 6 * u * (D + S) ≤ x := by
-  obtain ⟨t1, t2, t3, t4⟩ := h.t_facts hD hs
-  obtain ⟨s1, s2⟩ := abs_le.1 hsS
-  obtain ⟨a1, a2⟩ := abs_le.1 t1
-  have e2 := h.sum_facts hD hs
-  have hx := le_trans h.hx (mul_le_mul_of_nonneg_left e2 u_pos.le)
-  obtain ⟨c1, c2⟩ := abs_le.1 hx
-  have ht := h.ht
-  unfold u at *
-  rcases le_total 0 (D - s) with hc | hc
-  · have ht0 := t3 hc
-    obtain ⟨m1, m2⟩ := h.hpos ht0
-    rw [abs_of_nonneg hc] at ht
-    obtain ⟨g1, g2⟩ := abs_le.1 ht
-    exact ⟨by linarith, by linarith⟩
-  · have ht0 := t4 hc
-    obtain ⟨m1, m2⟩ := h.hneg ht0
-    rw [abs_of_nonpos hc] at ht
-    obtain ⟨g1, g2⟩ := abs_le.1 ht
-    exact ⟨by linarith, by linarith⟩
-
 
 /-! ## the float placement satisfies them -/
 
@@ -233,6 +215,257 @@ theorem place_touch {d a : F32} (fd : Fn d) (fa : Fn a) (hd : 0 < val d) (ha0 : 
   rw [hm, zero_add] at hR
   have hv : val ((d - d) * a + d) = val d := Rnd_repr _ _ d.nb hR (nb_lt d) fd rfl
   have fx : Fn ((d - d) * a + d) := Rnd_fin _ _ hR (abs_val_le_maxv fd)
+  exact ⟨hm, eq_of_val_eq fx fd hv (by rw [hv]; exact ne_of_gt hd)⟩
+
+
+/-! # Slice: the far edge is measured from the target's far edge -/
+
+/-- `1 : F32` as the model writes it (`Arith.ofInt 1`) -/
+def one32 : F32 := Arith.ofInt 1
+
+theorem one32_bits : one32 = ⟨0x3F800000⟩ := by decide
+
+theorem bval_one : bval 1065353216 = 1 := by
+  have h1 : negB32 1065353216 = false := by decide
+  have h2 : mantB 1065353216 = 8388608 := by decide
+  have h3 : expB 1065353216 = -23 := by decide
+  unfold bval sval; rw [h1, h2, h3]; unfold pow2; norm_num
+
+theorem one32_fin : Fn one32 := by rw [one32_bits]; decide
+theorem one32_val : val one32 = 1 := by
+  rw [one32_bits]
+  have : (⟨0x3F800000⟩ : F32).nb = 1065353216 := by decide
+  unfold val; rw [this]; exact bval_one
+
+/-- `AspectSlice`'s placement: `minX := (d − s)·a`, `maxX := d − (d − s)·(1 − a)` -/
+def placeS (d s a : F32) : F32 × F32 := ((d - s) * a, d - (d - s) * (one32 - a))
+
+/-- `t = fl(D − s)`, `m = fl(t·a)`, `b = fl(1 − a)`, `p = fl(t·b)`, `x = fl(D − p)` -/
+structure SliceQ (D s a t m b p x : ℚ) : Prop where
+  ht : |t - (D - s)| ≤ u * |D - s|
+  hm : |m - t * a| ≤ u * |t| ∨ |m - t * a| ≤ u * minN
+  hpos : 0 ≤ t → 0 ≤ m ∧ m ≤ t
+  hneg : t ≤ 0 → t ≤ m ∧ m ≤ 0
+  hb : |b - (1 - a)| ≤ u * |1 - a|
+  hb01 : 0 ≤ b ∧ b ≤ 1
+  hp : |p - t * b| ≤ u * |t| ∨ |p - t * b| ≤ u * minN
+  hppos : 0 ≤ t → 0 ≤ p ∧ p ≤ t
+  hpneg : t ≤ 0 → t ≤ p ∧ p ≤ 0
+  hx : |x - (D - p)| ≤ u * |D - p|
+  /-- monotone rounding against the representable `D` -/
+  hxge : p ≤ 0 → D ≤ x
+  hxle : 0 ≤ p → x ≤ D
+
+/-- **exact covering** (no tolerance): if the float side is at least the target side, the computed minimum is
+    `≤ 0` and the computed maximum is `≥ D` -/
+theorem SliceQ.covers_exact {D s a t m b p x : ℚ} (h : SliceQ D s a t m b p x) (hD : 0 < D) (hs : 0 < s)
+    (hcov : D ≤ s) : m ≤ 0 ∧ D ≤ x := by
+  obtain ⟨_, _, _, t4⟩ := t_facts' h.ht hD hs
+  have ht0 := t4 (by linarith)
+  exact ⟨(h.hneg ht0).2, h.hxge (h.hpneg ht0).2⟩
+
+/-- if the float side is below the target side by at most `k·D`, covering holds up to `(k+u)·D`-ish:
+    for `k = 2u` (one rounding of the fitted side): minimum `≤ 3u·D`, maximum `≥ (1 − 4u)·D` -/
+theorem SliceQ.covers_ulp {D s a t m b p x : ℚ} (h : SliceQ D s a t m b p x) (hD : 0 < D) (hs : 0 < s)
+    (hnear : (1 - 2 * u) * D ≤ s) : m ≤ 3 * u * D ∧ (1 - 4 * u) * D ≤ x := by
+  obtain ⟨t1, t2, t3, t4⟩ := t_facts' h.ht hD hs
+  have ht := h.ht
+  have hx := h.hx
+  unfold u at *
+  rcases le_total 0 (D - s) with hc | hc
+  · have ht0 := t3 hc
+    obtain ⟨m1, m2⟩ := h.hpos ht0
+    obtain ⟨p1, p2⟩ := h.hppos ht0
+    rw [abs_of_nonneg hc] at ht
+    obtain ⟨g1, g2⟩ := abs_le.1 ht
+    have hDp : 0 ≤ D - p := by linarith
+    rw [abs_of_nonneg hDp] at hx
+    obtain ⟨c1, c2⟩ := abs_le.1 hx
+    exact ⟨by linarith, by linarith⟩
+  · have ht0 := t4 hc
+    have := h.hxge (h.hpneg ht0).2
+    exact ⟨by linarith [(h.hneg ht0).2], by linarith⟩
+
+/-- **covering relative to the target** (clause d for slice): if the exact side covers (`D ≤ S`) and
+    `|s − S| ≤ 3u·S`: minimum `≤ 4u·D`, maximum `≥ (1 − 5u)·D` -/
+theorem SliceQ.covers {D s a t m b p x S : ℚ} (h : SliceQ D s a t m b p x) (hD : 0 < D) (hs : 0 < s)
+    (_hS : 0 < S) (hsS : |s - S| ≤ 3 * u * S) (hcov : D ≤ S) :
+    m ≤ 4 * u * D ∧ (1 - 5 * u) * D ≤ x := by
+  obtain ⟨t1, t2, t3, t4⟩ := t_facts' h.ht hD hs
+  obtain ⟨s1, s2⟩ := abs_le.1 hsS
+  have ht := h.ht
+  have hx := h.hx
+  unfold u at *
+  rcases le_total 0 (D - s) with hc | hc
+  · have ht0 := t3 hc
+    obtain ⟨m1, m2⟩ := h.hpos ht0
+    obtain ⟨p1, p2⟩ := h.hppos ht0
+    rw [abs_of_nonneg hc] at ht
+    obtain ⟨g1, g2⟩ := abs_le.1 ht
+    have hDp : 0 ≤ D - p := by linarith
+    rw [abs_of_nonneg hDp] at hx
+    obtain ⟨c1, c2⟩ := abs_le.1 hx
+    exact ⟨by linarith, by linarith⟩
+  · have ht0 := t4 hc
+    have := h.hxge (h.hpneg ht0).2
+    exact ⟨by linarith [(h.hneg ht0).2], by linarith⟩
+
+/-- **alignment** for slice: minimum within `6u·(D + S)` of `a·(D − S)`, maximum within `8u·(D + S)` of
+    `a·(D − S) + S = D − (D − S)·(1 − a)` — necessarily relative to the size of the overflowing rectangle -/
+theorem SliceQ.align {D s a t m b p x S : ℚ} (h : SliceQ D s a t m b p x) (hD : 0 < D) (hs : 0 < s)
+    (ha0 : 0 ≤ a) (ha1 : a ≤ 1) (hN : minN ≤ D) (hS : 0 < S) (hsS : |s - S| ≤ 3 * u * S) :
+    |m - a * (D - S)| ≤ 6 * u * (D + S) ∧ |x - (a * (D - S) + S)| ≤ 8 * u * (D + S) := by
+  have e1 := min_err' h.ht h.hm hD hs ha0 ha1 hN
+  obtain ⟨t1, t2, t3, t4⟩ := t_facts' h.ht hD hs
+  -- the product `p` against `(D − s)·(1 − a)`
+  have hb1 : |b - (1 - a)| ≤ u := by
+    refine le_trans h.hb ?_
+    rw [abs_of_nonneg (by linarith)]
+    have := mul_le_mul_of_nonneg_left (by linarith : 1 - a ≤ 1) u_pos.le
+    linarith
+  have hp1 : |p - t * b| ≤ u * (1 + u) * (D + s) := by
+    rcases h.hp with h1 | h1
+    · refine le_trans h1 ?_
+      rw [mul_assoc]; exact mul_le_mul_of_nonneg_left t2 u_pos.le
+    · refine le_trans h1 ?_
+      have : minN ≤ (1 + u) * (D + s) := by unfold u; nlinarith
+      rw [mul_assoc]; exact mul_le_mul_of_nonneg_left this u_pos.le
+  have hbz : |b * (t - (D - s))| ≤ u * (D + s) := abs_unit_mul h.hb01.1 h.hb01.2 t1
+  have hDs : |D - s| ≤ D + s := abs_le.2 ⟨by linarith, by linarith⟩
+  have hzb : |(D - s) * (b - (1 - a))| ≤ u * (D + s) := by
+    rw [abs_mul]
+    calc |D - s| * |b - (1 - a)| ≤ (D + s) * u := mul_le_mul hDs hb1 (abs_nonneg _) (by linarith)
+      _ = u * (D + s) := mul_comm _ _
+  have e : t * b = (D - s) * (1 - a) + b * (t - (D - s)) + (D - s) * (b - (1 - a)) := by ring
+  rw [e] at hp1
+  have haS : |a * (s - S)| ≤ 3 * u * S := abs_unit_mul ha0 ha1 hsS
+  have haS' : |(1 - a) * (s - S)| ≤ 3 * u * S := abs_unit_mul (by linarith) (by linarith) hsS
+  -- `|D − p| ≤ (1+u)(D+s)`
+  have hDp : |D - p| ≤ (1 + u) * (D + s) := by
+    obtain ⟨a1, a2⟩ := abs_le.1 t1
+    unfold u at *
+    rcases le_total 0 t with hc | hc
+    · obtain ⟨p1, p2⟩ := h.hppos hc
+      exact abs_le.2 ⟨by linarith, by linarith⟩
+    · obtain ⟨p1, p2⟩ := h.hpneg hc
+      exact abs_le.2 ⟨by linarith, by linarith⟩
+  have hx := le_trans h.hx (mul_le_mul_of_nonneg_left hDp u_pos.le)
+  have q1 : a * (D - S) = a * (D - s) + a * (s - S) := by ring
+  have q2 : a * (D - S) + S = D - (D - s) * (1 - a) - (1 - a) * (s - S) := by ring
+  rw [q2, q1]
+  obtain ⟨s1, s2⟩ := abs_le.1 hsS
+  obtain ⟨b1, b2⟩ := abs_le.1 e1
+  obtain ⟨c1, c2⟩ := abs_le.1 hx
+  obtain ⟨d1, d2⟩ := abs_le.1 haS
+  obtain ⟨f1, f2⟩ := abs_le.1 haS'
+  obtain ⟨g1, g2⟩ := abs_le.1 hp1
+  obtain ⟨k1, k2⟩ := abs_le.1 hbz
+  obtain ⟨l1, l2⟩ := abs_le.1 hzb
+  unfold u at *
+  constructor
+  · exact abs_le.2 ⟨by linarith, by linarith⟩
+  · exact abs_le.2 ⟨by linarith, by linarith⟩
+
+/-! ## the float placement of slice satisfies them -/
+
+theorem one_le_maxv : (1 : ℚ) ≤ maxv := by
+  unfold maxv
+  have : pow2 0 ≤ pow2 104 := pow2_mono (by omega)
+  rw [pow2_zero] at this
+  linarith
+
+/-- `fl(1 − a)` for `a ∈ [0,1]`: finite, in `[0,1]`, relative error `u` -/
+theorem one_sub_frac {a : F32} (fa : Fn a) (ha0 : 0 ≤ val a) (ha1 : val a ≤ 1) :
+    Fn (one32 - a) ∧ |val (one32 - a) - (1 - val a)| ≤ u * |1 - val a| ∧
+    0 ≤ val (one32 - a) ∧ val (one32 - a) ≤ 1 := by
+  have h1 : |val one32 - val a| ≤ maxv := by
+    rw [one32_val, abs_of_nonneg (by linarith)]; have := one_le_maxv; linarith
+  obtain ⟨fb, eb⟩ := sub_err one32_fin fa h1
+  have hR := sub_nb one32_fin fa
+  rw [one32_val] at eb hR
+  have f0 : FinB 0 := by decide
+  have r0 := Rnd_ge_repr _ _ 0 hR fb (by norm_num) f0 (by rw [bval_zero0]; linarith)
+  rw [bval_zero0] at r0
+  have r1 := Rnd_le_repr _ _ one32.nb hR fb (nb_lt _) one32_fin (by
+    show 1 - val a ≤ val one32
+    rw [one32_val]; linarith)
+  have : bval one32.nb = 1 := one32_val
+  rw [this] at r1
+  exact ⟨fb, eb, r0, r1⟩
+
+/-- the five float operations of one slice placement: finiteness and the rounding facts -/
+theorem placeS_float {d s a : F32} (fd : Fn d) (fs : Fn s) (fa : Fn a) (hd : 0 < val d) (hs : 0 < val s)
+    (ha0 : 0 ≤ val a) (ha1 : val a ≤ 1) (hsum : val d + val s ≤ maxv / 3) :
+    Fn (placeS d s a).1 ∧ Fn (placeS d s a).2 ∧
+    SliceQ (val d) (val s) (val a) (val (d - s)) (val (placeS d s a).1) (val (one32 - a))
+      (val ((d - s) * (one32 - a))) (val (placeS d s a).2) := by
+  unfold placeS
+  have hmax := maxv_pos
+  have hb1 : |val d - val s| ≤ val d + val s := abs_le.2 ⟨by linarith, by linarith⟩
+  obtain ⟨ft, et⟩ := sub_err fd fs (by linarith)
+  have hta : |val (d - s) * val a| ≤ |val (d - s)| := by
+    rw [abs_mul, abs_of_nonneg ha0]; exact mul_le_of_le_one_right (abs_nonneg _) ha1
+  obtain ⟨fm, em⟩ := mul_err ft fa (le_trans hta (abs_val_le_maxv ft))
+  obtain ⟨bp, bn⟩ := mul_frac_between ft fa fm ha0 ha1
+  have hm : |val ((d - s) * a) - val (d - s) * val a| ≤ u * |val (d - s)| ∨
+      |val ((d - s) * a) - val (d - s) * val a| ≤ u * minN := by
+    rcases em with h | ⟨_, h⟩
+    · left; exact le_trans h (mul_le_mul_of_nonneg_left hta u_pos.le)
+    · right; exact h
+  obtain ⟨fb, eb, b0, b1⟩ := one_sub_frac fa ha0 ha1
+  have htb : |val (d - s) * val (one32 - a)| ≤ |val (d - s)| := by
+    rw [abs_mul, abs_of_nonneg b0]; exact mul_le_of_le_one_right (abs_nonneg _) b1
+  obtain ⟨fp, ep⟩ := mul_err ft fb (le_trans htb (abs_val_le_maxv ft))
+  obtain ⟨pp, pn⟩ := mul_frac_between ft fb fp b0 b1
+  have hp : |val ((d - s) * (one32 - a)) - val (d - s) * val (one32 - a)| ≤ u * |val (d - s)| ∨
+      |val ((d - s) * (one32 - a)) - val (d - s) * val (one32 - a)| ≤ u * minN := by
+    rcases ep with h | ⟨_, h⟩
+    · left; exact le_trans h (mul_le_mul_of_nonneg_left htb u_pos.le)
+    · right; exact h
+  -- no overflow in the final difference
+  have hdp : |val d - val ((d - s) * (one32 - a))| ≤ maxv := by
+    have e1 : |val (d - s)| ≤ (1 + u) * (val d + val s) := by
+      have := abs_le.1 (le_trans et (mul_le_mul_of_nonneg_left hb1 u_pos.le))
+      have := abs_le.1 hb1
+      unfold u at *
+      exact abs_le.2 ⟨by linarith, by linarith⟩
+    obtain ⟨g1, g2⟩ := abs_le.1 e1
+    unfold u at *
+    rcases le_total 0 (val (d - s)) with hc | hc
+    · obtain ⟨m1, m2⟩ := pp hc
+      exact abs_le.2 ⟨by linarith, by linarith⟩
+    · obtain ⟨m1, m2⟩ := pn hc
+      exact abs_le.2 ⟨by linarith, by linarith⟩
+  obtain ⟨fx, ex⟩ := sub_err fd fp hdp
+  have hR := sub_nb fd fp
+  have xge : val ((d - s) * (one32 - a)) ≤ 0 → val d ≤ val (d - (d - s) * (one32 - a)) := fun h =>
+    Rnd_ge_repr _ _ d.nb hR fx (nb_lt d) fd (by show val d ≤ _; linarith)
+  have xle : 0 ≤ val ((d - s) * (one32 - a)) → val (d - (d - s) * (one32 - a)) ≤ val d := fun h =>
+    Rnd_le_repr _ _ d.nb hR fx (nb_lt d) fd (by show _ ≤ val d; linarith)
+  exact ⟨fm, fx, et, hm, bp, bn, eb, ⟨b0, b1⟩, hp, pp, pn, ex, xge, xle⟩
+
+/-- **exactness** (clause c, slice): where the fitted side IS the target side, the computed minimum is zero and
+    the computed maximum is the target side, bit for bit -/
+theorem placeS_touch {d a : F32} (fd : Fn d) (fa : Fn a) (hd : 0 < val d) (ha0 : 0 ≤ val a) (ha1 : val a ≤ 1) :
+    val (placeS d d a).1 = 0 ∧ (placeS d d a).2 = d := by
+  unfold placeS
+  obtain ⟨ft, et⟩ := sub_err fd fd (by rw [sub_self, abs_zero]; exact maxv_pos.le)
+  rw [sub_self, abs_zero, mul_zero, sub_zero] at et
+  have ht : val (d - d) = 0 := abs_eq_zero.1 (le_antisymm et (abs_nonneg _))
+  have hmax := maxv_pos
+  obtain ⟨fm, _⟩ := mul_err ft fa (by rw [ht, zero_mul, abs_zero]; exact hmax.le)
+  obtain ⟨bp, _⟩ := mul_frac_between ft fa fm ha0 ha1
+  obtain ⟨m1, m2⟩ := bp (le_of_eq ht.symm)
+  have hm : val ((d - d) * a) = 0 := le_antisymm (by rw [ht] at m2; exact m2) m1
+  obtain ⟨fb, _, b0, b1⟩ := one_sub_frac fa ha0 ha1
+  obtain ⟨fp, _⟩ := mul_err ft fb (by rw [ht, zero_mul, abs_zero]; exact hmax.le)
+  obtain ⟨pp, _⟩ := mul_frac_between ft fb fp b0 b1
+  obtain ⟨p1, p2⟩ := pp (le_of_eq ht.symm)
+  have hp : val ((d - d) * (one32 - a)) = 0 := le_antisymm (by rw [ht] at p2; exact p2) p1
+  have hR := sub_nb fd fp
+  rw [hp, sub_zero] at hR
+  have hv : val (d - (d - d) * (one32 - a)) = val d := Rnd_repr _ _ d.nb hR (nb_lt d) fd rfl
+  have fx : Fn (d - (d - d) * (one32 - a)) := Rnd_fin _ _ hR (abs_val_le_maxv fd)
   exact ⟨hm, eq_of_val_eq fx fd hv (by rw [hv]; exact ne_of_gt hd)⟩
 
 end Ivg.Fit32
